@@ -15,6 +15,13 @@ claim('C01', 'program-model resolution of the accessor registry + path-sensitive
       'i-th axis and scalar-indexed axes are dropped. Not the numerical result of argsort/searchsorted/np.ix_.',
       'Assumes numpy.where/argmin/argsort/searchsorted/take documented semantics.', 'DESIGN.md §3 C01')
 
+claim('C03', 'path-sensitive value numbering of _setitem / _setvalues_* (receiver of every write, store ordering) + exhaustive decision table of _maybe_cast_type over 10x10 dtype kinds',
+      'Decides structural clauses of C03: with inplace=False every write goes to a deep copy that is returned (and to the array itself, returning None, '
+      'with inplace=True); the write path resolves indices with the same call and builds the same orthogonal indexer as the read path; with cast=True the '
+      'dtype is widened before the cells are stored; the widening rules are loss-free for every (array kind, assigned kind) pair; the writers store into '
+      '_values only. Not which cells NumPy writes for a fancy index.',
+      'Assumes np.asarray(x, dtype=) preserves shape and values representable in the target kind.', 'DESIGN.md §3 C03')
+
 UNDER_CONSTRUCTION = 'checker under construction in this session (claimed in DESIGN.md, not yet registered)'
 for pid in ['C01', 'C03', 'C04', 'C05', 'C06', 'C07', 'C08', 'C09', 'C10', 'C11', 'C12', 'C13', 'C14', 'C15', 'C16',
             'C17', 'C18', 'C19']:
